@@ -336,6 +336,9 @@ SUBS = [
         budget={"quick": 12000, "thorough": 250000}, desc="names, ranks, order and CSVs on texel-grid maps (lengths taken from the output)"),
     Sub("exact", kind="hyp", strategy=lambda: gen.tagged_case(many_painted=True, exact=True, max_scaffolds=8, max_contigs=5, unloc_weight=3), body=body_exact,
         budget={"quick": 8000, "thorough": 150000}, desc="t = 1, cuts on contig boundaries: exact lengths, frequent ties, unloc size order"),
+    Sub("exact_unlocs", kind="hyp", strategy=lambda: gen.tagged_case(exact=True, many_painted=True, all_painted=True, two_haplotypes=False, target_mode=False,
+                                                                  group_sizes=[3, 4, 5], unloc_weight=2, piece_tag_weight=20, max_scaffolds=6, max_contigs=6), body=body_exact,
+        budget={"quick": 6000, "thorough": 100000}, desc="every scaffold painted, 3-5 pieces each, half of the pieces Unloc, exact lengths: unloc numbering and size order incl. the last scaffold of the map"),
     Sub("slivers", kind="hyp", strategy=lambda: gen.tagged_case(many_painted=True, slivers=True, max_scaffolds=5, max_contigs=6, unloc_weight=2, piece_tag_weight=3, two_haplotypes=False), body=body,
         budget={"quick": 8000, "thorough": 150000}, desc="fractional texels, gaps of about two texels, many cuts near contig ends: pieces that cover mostly gap (overlap results emptied by trimming)"),
     Sub("cli", kind="hyp", strategy=lambda: gen.tagged_case(many_painted=True, max_scaffolds=5, max_contigs=4), body=body_cli,
